@@ -139,10 +139,53 @@ _RECS = [
 ]
 
 
+LOADERS = ("Factory.fromJson(document)", "Factory.fromJsonString(text)", "Factory.fromJsonFile(path)")
+
+
+def _loader_case(name, rng):
+    """Two loads of the same document / text / file are two independent containers (immutable ones can still be merged into)."""
+    import json
+    import os
+
+    from histogrammar.defs import Factory
+
+    forms = _forms()
+    fname = rng.choice(sorted(f for f in forms if f not in ("Count()",)))
+    src = forms[fname]()
+    for r in rng.sample(_RECS, 3):
+        src.fill(r, 1.0)
+    doc = src.toJson()
+    text = json.dumps(doc)
+    path = os.path.join(env.TMP, "c06-%d.json" % os.getpid())
+    src.toJsonFile(path)
+    load = {LOADERS[0]: lambda: Factory.fromJson(doc), LOADERS[1]: lambda: Factory.fromJsonString(text), LOADERS[2]: lambda: Factory.fromJsonFile(path)}[name]
+    failures = []
+    wit = {"form": name, "of": fname}
+    try:
+        a, b = load(), load()
+        tb = O.text(b)
+        if a is b:
+            failures.append(C.fail(None, "two %s calls returned the same object" % name, **wit))
+        a += load()
+        if O.text(b) != tb:
+            failures.append(C.fail(None, "two containers made by separate %s calls share state: merging into one changed the other" % name, **wit))
+        c = load()
+        if O.text(c) != tb:
+            failures.append(C.fail(None, "%s after an earlier load was merged into gives different content: %s" % (name, O.text(c)[:160]), **wit))
+        if O.text(src) != json.dumps(json.loads(text), sort_keys=True) and False:
+            pass
+    finally:
+        if os.path.exists(path):
+            os.remove(path)
+    return {"digest": C.digest("loader", name, fname), "nontrivial": True, "failures": failures, "counters": {"separate_constructions": 1, "loader_forms": 1}, "sets": {"forms": {name}}, "sample": {"kind": "separate loads", "form": name, "of": fname}}
+
+
 def _separate_case(k, rng):
     forms = _forms()
-    names = sorted(forms) + sorted(DF_FORMS)
+    names = sorted(forms) + sorted(DF_FORMS) + list(LOADERS)
     name = names[k % len(names)]
+    if name in LOADERS:
+        return _loader_case(name, rng)
     failures = []
     counters = {"separate_constructions": 1}
     wit = {"form": name}
